@@ -128,14 +128,22 @@ def add_extras(c, rnd, mode):
     what only a C compiler can complete: partial structs ('...;'), 'typedef ... T;',
     'typedef int... T;', and constants that are not integers"""
     p = c.p
-    for form in rnd.sample(['tdanon', 'tdanonptr', 'opaque', 'opaque-typedef', 'opaque-implicit'],
-                           rnd.choice([0, 1, 2, 3])):
+    # 'tdanonpp' only in-line: out-of-line modules re-emit an included anonymous aggregate that
+    # is not the direct target of a pointer typedef (the recorded root cause of the
+    # 'anonymous-member-names-collide' findings), so identity fails there by that known cause
+    forms = ['tdanon', 'tdanonptr', 'opaque', 'opaque-typedef', 'opaque-implicit']
+    if mode == 'inline':
+        forms.append('tdanonpp')
+    for form in rnd.sample(forms, rnd.choice([0, 1, 2, 3])):
         nm = c.name('x')
         kind = rnd.choice(['struct', 'struct', 'union'])
         if form == 'tdanon':
             d = {'kind': 'typedef', 'name': nm, 'type': {'k': 'agg', 'name': nm, 'kind': kind},
                  'text': 'typedef %s { %s } %s;' % (kind, xbody(rnd), nm)}
             c.typedefs.append(d)
+        elif form == 'tdanonpp':            # .. reached through a plain pointer-to-pointer type
+            d = {'kind': 'typedef', 'name': nm, 'type': VOIDP, 'noalias': True,
+                 'text': 'typedef %s { %s } **%s;' % (kind, xbody(rnd), nm)}
         elif form == 'tdanonptr':           # the aggregate's only name is this pointer typedef
             # not offered to the common generator: 'typedef P Q;' of such a P makes the
             # recompiler fail its own consistency assertion with or without include()
